@@ -1184,4 +1184,18 @@ theorem atolOrig_ltoa_inverse_iff (v : BitVec 64) (tail : List Byte) :
     exact absurd h (by simp)
   · intro hv; exact atolOrig_ltoa_inverse_partial v hv tail
 
+
+/-- the `debug_asmlink_args*` self-test printers: every argument as its fixed-width upper-case
+    hex text followed by `':'`; `dprptr` / `dprptrln`: the 16 hex digits of the pointer (+ CR LF) -/
+theorem asmlink_and_dprptr_text (v8 : List (BitVec 8)) (v16 : List (BitVec 16)) (v32 : List (BitVec 32)) (p : BitVec 64) :
+    asmlinkArgs8 v8 = v8.flatMap (fun a => (fixedDigits 16 2 a.toNat).map (digitChar true) ++ [0x3A#8]) ∧
+    asmlinkArgs16 v16 = v16.flatMap (fun a => (fixedDigits 16 4 a.toNat).map (digitChar true) ++ [0x3A#8]) ∧
+    asmlinkArgs32 v32 = v32.flatMap (fun a => (fixedDigits 16 8 a.toNat).map (digitChar true) ++ [0x3A#8]) ∧
+    dprptr p = some ((fixedDigits 16 16 p.toNat).map (digitChar true)) ∧
+    dprptrln p = some ((fixedDigits 16 16 p.toNat).map (digitChar true) ++ [0x0D#8, 0x0A#8]) := by
+  refine ⟨?_, ?_, ?_, printhexPtr_spec p, by rw [dprptrln, printhexPtr_spec]; rfl⟩
+  · simp only [asmlinkArgs8]; congr 1; funext a; rw [printhexU8_spec]
+  · simp only [asmlinkArgs16]; congr 1; funext a; rw [printhexU16, printhexBytes_spec 2 a]
+  · simp only [asmlinkArgs32]; congr 1; funext a; rw [printhexU32, printhexBytes_spec 4 a]
+
 end Igris.C07
